@@ -33,10 +33,16 @@ def setup():
 
 # ----------------------------------------------------------------- op -> callable
 def _given_path(world, knobs, rel):
-    if knobs.get("path_style") == "tilde":
+    """How the user spells the path of project file `rel` on the command line."""
+    style = knobs.get("path_style")
+    if style == "tilde":
         return "~/" + rel
-    if knobs.get("path_style") == "relative":
+    if style == "relative":
         return rel
+    if style == "symlink_dir":
+        return os.path.join(world.alias_dir(), rel)  # the project directory reached through a symbolic link
+    if style == "symlink_file":
+        return world.alias_file(rel)  # a symbolic link to the file itself, kept outside the project directory
     return world.path(rel)
 
 
@@ -638,13 +644,13 @@ def oracles_fault(op, S0, S1, SF, outF, sim, stats):
         return v
     fk = fired["kind"]
     seam = fired["event_kind"]
-    key = "%s@%s" % (fk, seam)
+    key = "%s%s@%s" % (fk, "+persistent" if fired.get("repeats") else "", seam)
     stats.setdefault("faults_fired", {})
     stats["faults_fired"][key] = stats["faults_fired"].get(key, 0) + 1
     if fired.get("write_in_flight"):
         stats["faults_with_write_in_flight"] = stats.get("faults_with_write_in_flight", 0) + 1
     named = set(named_files(op))
-    common = dict(fault=fk, seam=seam, in_flight=bool(fired.get("write_in_flight")))
+    common = dict(fault=fk, seam=seam, in_flight=bool(fired.get("write_in_flight")), persistent=True if fired.get("repeats") else None)
     truth = _truth_info(op, S0) if op["op"] == "sync" else None
     for f in sorted(set(S0) | set(S1) | set(SF)):
         a, b, c = S0.get(f), S1.get(f), SF.get(f)
@@ -896,17 +902,20 @@ def enumerate_faults(sim1, seed, nsteps=24):
             L = (e.get("detail") or {}).get("len", 0)
             for cut in sorted({0, 1, L // 2, max(0, L - 1)}):
                 ev(n, "IOERR", cut=cut, errno="ENOSPC")
+            ev(n, "IOERR", cut=L // 2, errno="ENOSPC", persist=True)
             for cut in sorted({0, L // 2, L}):
                 ev(n, "KILL", cut=cut)
             ev(n, "INTERRUPT")
         elif k in ("open_w", "open_a", "os_open_w"):
             ev(n, "IOERR", errno="EACCES")
             ev(n, "IOERR", errno="ENOSPC")
+            ev(n, "IOERR", errno="EROFS", persist=True)
             ev(n, "INTERRUPT")
             ev(n, "ALLOC")
             ev(n, "KILL")
         elif k in ("close_w", "flush"):
             ev(n, "IOERR", errno="ENOSPC")
+            ev(n, "IOERR", errno="ENOSPC", persist=True)
             ev(n, "KILL")
             ev(n, "INTERRUPT")
         elif k.startswith("convert:"):
@@ -923,6 +932,7 @@ def enumerate_faults(sim1, seed, nsteps=24):
             ev(n, "KILL")
         else:  # replace, rename, remove, fsync, truncate, chmod, ...
             ev(n, "IOERR", errno="EIO")
+            ev(n, "IOERR", errno="ENOSPC", persist=True)
             ev(n, "KILL")
             ev(n, "INTERRUPT")
     n = sim1.steps
